@@ -19,6 +19,7 @@ structure Base (a : Actor) (s : St) : Prop where
   drain : Item.drain ∈ a.msgQ → s.drainReq = true
   stopTx : s.stopReason.isSome = true → a.stopTx = false
   kill : a.sigVal = true → s.killed = true ∨ a.sup = none
+  localEq : s.isLocal = a.isLocal
 
 /-- What holds of a live (not `done`) actor at op boundaries. -/
 structure Core (a : Actor) (s : St) : Prop extends Base a s where
@@ -27,6 +28,7 @@ structure Core (a : Actor) (s : St) : Prop extends Base a s where
   started : s.startedEmitted = true → pastPostStart a.phase = true
   postStop : ∀ r, a.phase = .postStop r →
     (r.isUser = true ∧ s.stopReason = some r) ∨ (r = .drained ∧ s.drainReq = true)
+  freshSig : a.phase = .fresh → a.sigVal = false
 
 /-- Postcondition of every piece of a step of an actor that started the step with identity `id0`
 and observed supervisor `sup0`: the automaton still remembers `sup0`. -/
@@ -51,6 +53,7 @@ variable (me : Nat)
 @[simp] theorem next_callRet (s : St) (k : Nat) (r : CallRes) : next me s (.callRet k r) = .ok s := rfl
 @[simp] theorem next_waitRet (s : St) (w : Nat) (b : Bool) : next me s (.waitRet w b) = .ok s := rfl
 @[simp] theorem next_snap (s : St) (sn : Snap) : next me s (.snap sn) = .ok s := rfl
+@[simp] theorem next_isLocal (s : St) : next me s .isLocal = .ok { s with isLocal := true } := rfl
 @[simp] theorem next_supIs (s : St) (p : Option Nat) : next me s (.supIs p) = .ok { s with sup := p } := rfl
 @[simp] theorem next_aborted (s : St) : next me s .aborted = .ok { s with aborted := true } := rfl
 @[simp] theorem next_dropped (s : St) : next me s .dropped = .ok { s with preFailed := true } := rfl
@@ -196,7 +199,7 @@ theorem killedInLoop_sim (a : Actor) (s : St) (hid : a.id = me) (hsup : s.sup = 
 /-! ### the message loop -/
 
 theorem Base.notStartable {a : Actor} {s : St} (h : Base a s) : Base a { s with startable := false } :=
-  ⟨h.preFailed, h.terminal, h.stopVal, h.drain, h.stopTx, h.kill⟩
+  ⟨h.preFailed, h.terminal, h.stopVal, h.drain, h.stopTx, h.kill, h.localEq⟩
 
 theorem enterPostStop_sim (a : Actor) (r : Reason) (s : St) (hid : a.id = me) (hb : Base a s)
     (harmed : a.armed = true) (hn : a.notifyOnCancel = true)
@@ -205,6 +208,8 @@ theorem enterPostStop_sim (a : Actor) (r : Reason) (s : St) (hid : a.id = me) (h
   refine ⟨{ s with startable := false }, by simp [enterPostStop, accepts_cons], ?_, rfl, Or.inr ?_⟩
   · simp [enterPostStop, Actor.setStatus, hid]
   · exact { preFailed := hb.preFailed, terminal := hb.terminal,
+            localEq := (by simpa [enterPostStop, Actor.setStatus] using hb.localEq),
+            freshSig := (by intro hfr; simp [enterPostStop] at hfr),
             stopVal := by simpa [enterPostStop, Actor.setStatus] using hb.stopVal,
             drain := by simpa [enterPostStop, Actor.setStatus] using hb.drain,
             stopTx := by simpa [enterPostStop, Actor.setStatus] using hb.stopTx,
@@ -234,13 +239,13 @@ theorem listen_sim (a : Actor) (s : St) (hid : a.id = me) (hsup : s.sup = a.sup)
     · rename_i r hr
       have hr' : a.stopVal = some r := hr
       refine enterPostStop_sim me _ r s hid ?_ harmed hn (Or.inl (hb.stopVal r hr'))
-      exact ⟨hb.preFailed, hb.terminal, by simp, by simpa using hb.drain, by simpa using hb.stopTx, by simpa using hb.kill⟩
+      exact ⟨hb.preFailed, hb.terminal, by simp, by simpa using hb.drain, by simpa using hb.stopTx, by simpa using hb.kill, by simpa using hb.localEq⟩
     · rename_i hstop
       have hstop' : a.stopVal = none := hstop
       split
       · rename_i e q hq
         refine ⟨{ s with startable := false }, by simp [accepts_cons], hid, rfl, Or.inr ?_⟩
-        exact { preFailed := hb.preFailed, terminal := hb.terminal,
+        exact { preFailed := hb.preFailed, terminal := hb.terminal, localEq := (by simpa using hb.localEq), freshSig := (by intro hfr; simp at hfr),
                 stopVal := by simpa using hb.stopVal, drain := by simpa using hb.drain,
                 stopTx := by simpa using hb.stopTx, kill := by simpa using hb.kill,
                 armed := by intro _; simpa using harmed, notify := by intro _; simpa using hn,
@@ -249,7 +254,7 @@ theorem listen_sim (a : Actor) (s : St) (hid : a.id = me) (hsup : s.sup = a.sup)
         · rename_i m q hm
           have hm' : a.msgQ = .msg m :: q := hm
           refine ⟨{ s with startable := false }, by simp [accepts_cons], hid, rfl, Or.inr ?_⟩
-          exact { preFailed := hb.preFailed, terminal := hb.terminal,
+          exact { preFailed := hb.preFailed, terminal := hb.terminal, localEq := (by simpa using hb.localEq), freshSig := (by intro hfr; simp at hfr),
                   stopVal := by simpa using hb.stopVal,
                   drain := by intro h; apply hb.drain; rw [hm']; exact List.mem_cons_of_mem _ (by simpa using h),
                   stopTx := by simpa using hb.stopTx, kill := by simpa using hb.kill,
@@ -258,7 +263,7 @@ theorem listen_sim (a : Actor) (s : St) (hid : a.id = me) (hsup : s.sup = a.sup)
         · rename_i k q hm
           have hm' : a.msgQ = .call k :: q := hm
           refine ⟨{ s with startable := false }, by simp [accepts_cons], hid, rfl, Or.inr ?_⟩
-          exact { preFailed := hb.preFailed, terminal := hb.terminal,
+          exact { preFailed := hb.preFailed, terminal := hb.terminal, localEq := (by simpa using hb.localEq), freshSig := (by intro hfr; simp at hfr),
                   stopVal := by simpa using hb.stopVal,
                   drain := by intro h; apply hb.drain; rw [hm']; exact List.mem_cons_of_mem _ (by simpa using h),
                   stopTx := by simpa using hb.stopTx, kill := by simpa using hb.kill,
@@ -270,9 +275,9 @@ theorem listen_sim (a : Actor) (s : St) (hid : a.id = me) (hsup : s.sup = a.sup)
             (Or.inr ⟨rfl, hb.drain (by rw [hm']; exact List.mem_cons_self ..)⟩)
           exact ⟨hb.preFailed, hb.terminal, by simpa using hb.stopVal,
             by intro h; apply hb.drain; rw [hm']; exact List.mem_cons_of_mem _ (by simpa using h),
-            by simpa using hb.stopTx, by simpa using hb.kill⟩
+            by simpa using hb.stopTx, by simpa using hb.kill, by simpa using hb.localEq⟩
         · refine ⟨s, by simp, hid, rfl, Or.inr ?_⟩
-          exact { preFailed := hb.preFailed, terminal := hb.terminal,
+          exact { preFailed := hb.preFailed, terminal := hb.terminal, localEq := (by simpa using hb.localEq), freshSig := (by intro hfr; simp at hfr),
                   stopVal := by simpa using hb.stopVal, drain := by simpa using hb.drain,
                   stopTx := by simpa using hb.stopTx, kill := by simpa using hb.kill,
                   armed := by intro _; simpa using harmed, notify := by intro _; simpa using hn,
@@ -291,22 +296,24 @@ structure Frame (a0 a : Actor) : Prop where
   sup : a.sup = a0.sup
   armed : a.armed = a0.armed
   notify : a.notifyOnCancel = a0.notifyOnCancel
+  isLocal : a.isLocal = a0.isLocal
 
-theorem Frame.refl (a : Actor) : Frame a a := ⟨rfl, rfl, rfl, rfl, rfl⟩
+theorem Frame.refl (a : Actor) : Frame a a := ⟨rfl, rfl, rfl, rfl, rfl, rfl⟩
 theorem Frame.trans {a b c : Actor} (h1 : Frame a b) (h2 : Frame b c) : Frame a c :=
   ⟨h2.id.trans h1.id, h2.phase.trans h1.phase, h2.sup.trans h1.sup, h2.armed.trans h1.armed,
-   h2.notify.trans h1.notify⟩
+   h2.notify.trans h1.notify, h2.isLocal.trans h1.isLocal⟩
 
 theorem apiSend_frame (a : Actor) (m : Nat) : Frame a (apiSend a m).1 := by
-  unfold apiSend; (repeat' split) <;> exact ⟨rfl, rfl, rfl, rfl, rfl⟩
+  unfold apiSend; (repeat' split) <;> exact ⟨rfl, rfl, rfl, rfl, rfl, rfl⟩
 theorem apiStop_frame (a : Actor) (r : Reason) : Frame a (apiStop a r).1 := by
-  unfold apiStop; (repeat' split) <;> exact ⟨rfl, rfl, rfl, rfl, rfl⟩
+  unfold apiStop; (repeat' split) <;> exact ⟨rfl, rfl, rfl, rfl, rfl, rfl⟩
 theorem apiKill_frame (a : Actor) : Frame a (apiKill a).1 := by
-  unfold apiKill; (repeat' split) <;> exact ⟨rfl, rfl, rfl, rfl, rfl⟩
+  unfold apiKill; (repeat' split) <;> exact ⟨rfl, rfl, rfl, rfl, rfl, rfl⟩
 theorem apiDrain_frame (a : Actor) : Frame a (apiDrain a).1 := by
-  unfold apiDrain; simp only []; (repeat' split) <;> exact ⟨rfl, rfl, rfl, rfl, rfl⟩
+  unfold apiDrain; simp only []; (repeat' split) <;> exact ⟨rfl, rfl, rfl, rfl, rfl, rfl⟩
 
 theorem Core.ofFrame {a0 a : Actor} {s0 s : St} (hf : Frame a0 a) (hc : Core a0 s0) (hb : Base a s)
+    (hfs : a0.phase = .fresh → a.sigVal = false)
     (hse : s.startedEmitted = s0.startedEmitted)
     (hps : ∀ r, a0.phase = .postStop r →
       (r.isUser = true ∧ s.stopReason = some r) ∨ (r = .drained ∧ s.drainReq = true)) : Core a s :=
@@ -314,7 +321,8 @@ theorem Core.ofFrame {a0 a : Actor} {s0 s : St} (hf : Frame a0 a) (hc : Core a0 
     armed := by rw [hf.phase, hf.armed]; exact hc.armed
     notify := by rw [hf.phase, hf.notify]; exact hc.notify
     started := by rw [hf.phase, hse]; exact hc.started
-    postStop := by rw [hf.phase]; exact hps }
+    postStop := by rw [hf.phase]; exact hps
+    freshSig := by rw [hf.phase]; exact hfs }
 
 theorem apiSend_fields (a : Actor) (m : Nat) :
     (apiSend a m).1.stopVal = a.stopVal ∧ (apiSend a m).1.stopTx = a.stopTx ∧
@@ -326,7 +334,8 @@ theorem send_core {a : Actor} {s : St} (m : Nat) (hc : Core a s) : Core (apiSend
   obtain ⟨h1, h2, h3, h4⟩ := apiSend_fields a m
   have hf := apiSend_frame a m
   refine Core.ofFrame hf hc ⟨hc.preFailed, hc.terminal, by rw [h1]; exact hc.stopVal, ?_, by rw [h2]; exact hc.stopTx,
-    by rw [h3, hf.sup]; exact hc.kill⟩ rfl hc.postStop
+    by rw [h3, hf.sup]; exact hc.kill, by rw [hf.isLocal]; simpa using hc.localEq⟩
+    (by rw [h3]; exact hc.freshSig) rfl hc.postStop
   intro hd
   apply hc.drain
   rcases h4 with h4 | h4 <;> rw [h4] at hd
@@ -355,7 +364,8 @@ theorem stop_core {a : Actor} {s : St} (r : Reason) (hu : r.isUser = true) (hc :
       | some x => have := hc.stopTx (by simp [hsr]); simp [this] at htx
     simp only [↓reduceIte]
     refine Core.ofFrame hf hc ⟨hc.preFailed, hc.terminal, ?_, by rw [h1]; exact hc.drain, fun _ => htx',
-      by rw [h2, hf.sup]; exact hc.kill⟩ rfl ?_
+      by rw [h2, hf.sup]; exact hc.kill, by rw [hf.isLocal]; simpa using hc.localEq⟩
+      (by rw [h2]; exact hc.freshSig) rfl ?_
     · intro r' hr'; rw [hv] at hr'; cases hr'; exact ⟨hu, rfl⟩
     · intro r' hp
       rcases hc.postStop r' hp with ⟨_, h⟩ | h
@@ -365,7 +375,8 @@ theorem stop_core {a : Actor} {s : St} (r : Reason) (hu : r.isUser = true) (hc :
     obtain ⟨hv, htx⟩ := h4 hr
     simp only [Bool.false_eq_true, ↓reduceIte]
     refine Core.ofFrame hf hc ⟨hc.preFailed, hc.terminal, by rw [hv]; exact hc.stopVal, by rw [h1]; exact hc.drain, ?_,
-      by rw [h2, hf.sup]; exact hc.kill⟩ rfl hc.postStop
+      by rw [h2, hf.sup]; exact hc.kill, by rw [hf.isLocal]; simpa using hc.localEq⟩
+      (by rw [h2]; exact hc.freshSig) rfl hc.postStop
     intro h
     rcases htx with htx | htx
     · rw [htx]; exact hc.stopTx h
@@ -380,6 +391,9 @@ theorem apiKill_fields (a : Actor) :
     ((apiKill a).2 = false → (apiKill a).1.sigVal = a.sigVal) := by
   unfold apiKill; (repeat' split) <;> simp_all
 
+theorem apiKill_fresh (a : Actor) (h : a.phase = .fresh) : (apiKill a).1.sigVal = a.sigVal := by
+  unfold apiKill; (repeat' split) <;> simp_all [Actor.portsOpen]
+
 theorem kill_core {a : Actor} {s : St} (hc : Core a s) :
     Core (apiKill a).1 (if (apiKill a).2 then { s with killed := true } else s) := by
   obtain ⟨h1, h2, h3, h4⟩ := apiKill_fields a
@@ -388,11 +402,13 @@ theorem kill_core {a : Actor} {s : St} (hc : Core a s) :
   | true =>
     simp only [↓reduceIte]
     exact Core.ofFrame hf hc ⟨hc.preFailed, hc.terminal, by rw [h2]; exact hc.stopVal, by rw [h1]; exact hc.drain,
-      by rw [h3]; exact hc.stopTx, fun _ => Or.inl rfl⟩ rfl hc.postStop
+      by rw [h3]; exact hc.stopTx, fun _ => Or.inl rfl, by rw [hf.isLocal]; simpa using hc.localEq⟩
+      (fun hfr => by rw [apiKill_fresh a hfr]; exact hc.freshSig hfr) rfl hc.postStop
   | false =>
     simp only [Bool.false_eq_true, ↓reduceIte]
     exact Core.ofFrame hf hc ⟨hc.preFailed, hc.terminal, by rw [h2]; exact hc.stopVal, by rw [h1]; exact hc.drain,
-      by rw [h3]; exact hc.stopTx, by rw [h4 hr, hf.sup]; exact hc.kill⟩ rfl hc.postStop
+      by rw [h3]; exact hc.stopTx, by rw [h4 hr, hf.sup]; exact hc.kill, by rw [hf.isLocal]; simpa using hc.localEq⟩
+      (fun hfr => by rw [apiKill_fresh a hfr]; exact hc.freshSig hfr) rfl hc.postStop
 
 theorem kill_killStrong {a : Actor} {s : St} (h : KillStrong a s) :
     KillStrong (apiKill a).1 (if (apiKill a).2 then { s with killed := true } else s) := by
@@ -414,7 +430,8 @@ theorem drain_core {a : Actor} {s : St} (hc : Core a s) :
   | true =>
     simp only [↓reduceIte]
     refine Core.ofFrame hf hc ⟨hc.preFailed, hc.terminal, by rw [h1]; exact hc.stopVal, fun _ => rfl,
-      by rw [h2]; exact hc.stopTx, by rw [h3, hf.sup]; exact hc.kill⟩ rfl ?_
+      by rw [h2]; exact hc.stopTx, by rw [h3, hf.sup]; exact hc.kill, by rw [hf.isLocal]; simpa using hc.localEq⟩
+      (by rw [h3]; exact hc.freshSig) rfl ?_
     intro r hp
     rcases hc.postStop r hp with h | ⟨h, _⟩
     · exact Or.inl h
@@ -424,12 +441,16 @@ theorem drain_core {a : Actor} {s : St} (hc : Core a s) :
     rcases h4 with h4 | h4
     · rw [hr] at h4; cases h4
     · exact Core.ofFrame hf hc ⟨hc.preFailed, hc.terminal, by rw [h1]; exact hc.stopVal, by rw [h4]; exact hc.drain,
-        by rw [h2]; exact hc.stopTx, by rw [h3, hf.sup]; exact hc.kill⟩ rfl hc.postStop
+        by rw [h2]; exact hc.stopTx, by rw [h3, hf.sup]; exact hc.kill, by rw [hf.isLocal]; simpa using hc.localEq⟩
+        (by rw [h3]; exact hc.freshSig) rfl hc.postStop
 
 theorem Core.congr {a a' : Actor} {s : St} (h0 : a'.phase = a.phase) (h1 : a'.armed = a.armed)
     (h2 : a'.notifyOnCancel = a.notifyOnCancel) (h3 : a'.stopVal = a.stopVal) (h4 : a'.msgQ = a.msgQ)
-    (h5 : a'.stopTx = a.stopTx) (h6 : a'.sigVal = a.sigVal) (h7 : a'.sup = a.sup) (hc : Core a s) : Core a' s :=
+    (h5 : a'.stopTx = a.stopTx) (h6 : a'.sigVal = a.sigVal) (h7 : a'.sup = a.sup)
+    (h8 : a'.isLocal = a.isLocal) (hc : Core a s) : Core a' s :=
   { preFailed := hc.preFailed, terminal := hc.terminal
+    localEq := by rw [h8]; exact hc.localEq
+    freshSig := by rw [h0, h6]; exact hc.freshSig
     stopVal := by rw [h3]; exact hc.stopVal
     drain := by rw [h4]; exact hc.drain
     stopTx := by rw [h5]; exact hc.stopTx
@@ -461,20 +482,20 @@ theorem runFx_sim (a : Actor) (s : St) (f : Fx) (hc : Core a s) :
     refine ⟨s, by simp [runFx, accepts_cons], ?_⟩
     simp only [runFx]
     split
-    · exact ⟨⟨rfl, rfl, rfl, rfl, rfl⟩, rfl,
-        hc.congr (by rfl) (by rfl) (by rfl) (by rfl) (by rfl) (by rfl) (by rfl) (by rfl), id⟩
+    · exact ⟨⟨rfl, rfl, rfl, rfl, rfl, rfl⟩, rfl,
+        hc.congr (by rfl) (by rfl) (by rfl) (by rfl) (by rfl) (by rfl) (by rfl) (by rfl) (by rfl), id⟩
     · exact ⟨Frame.refl a, rfl, hc, id⟩
   | reply k v =>
     simp only [runFx]
     split
-    · exact ⟨s, by simp [accepts_cons], ⟨rfl, rfl, rfl, rfl, rfl⟩, rfl,
-        hc.congr (by rfl) (by rfl) (by rfl) (by rfl) (by rfl) (by rfl) (by rfl) (by rfl), id⟩
+    · exact ⟨s, by simp [accepts_cons], ⟨rfl, rfl, rfl, rfl, rfl, rfl⟩, rfl,
+        hc.congr (by rfl) (by rfl) (by rfl) (by rfl) (by rfl) (by rfl) (by rfl) (by rfl) (by rfl), id⟩
     · exact ⟨s, by simp [accepts_cons], Frame.refl a, rfl, hc, id⟩
   | forget k =>
     simp only [runFx]
     split
-    · exact ⟨s, by simp [accepts_cons], ⟨rfl, rfl, rfl, rfl, rfl⟩, rfl,
-        hc.congr (by rfl) (by rfl) (by rfl) (by rfl) (by rfl) (by rfl) (by rfl) (by rfl), id⟩
+    · exact ⟨s, by simp [accepts_cons], ⟨rfl, rfl, rfl, rfl, rfl, rfl⟩, rfl,
+        hc.congr (by rfl) (by rfl) (by rfl) (by rfl) (by rfl) (by rfl) (by rfl) (by rfl) (by rfl), id⟩
     · exact ⟨s, by simp [accepts_cons], Frame.refl a, rfl, hc, id⟩
 
 theorem runFxs_sim (fs : List Fx) (a : Actor) (s : St) (hc : Core a s) :
@@ -505,7 +526,7 @@ theorem runSeg_sim (a : Actor) (s : St) (cb : Cb) (sg : Seg) (k : Actor → Res 
   have hks : KillStrong a2 s2 := hk2 (by intro h; rw [hsig] at h; cases h)
   cases ht : sg.term with
   | tick =>
-    exact ⟨s2, rfl, by simpa [hf.id] using hid, hs2, Or.inr (hc2.congr (by rfl) (by rfl) (by rfl) (by rfl) (by rfl) (by rfl) (by rfl) (by rfl))⟩
+    exact ⟨s2, rfl, by simpa [hf.id] using hid, hs2, Or.inr (hc2.congr (by rfl) (by rfl) (by rfl) (by rfl) (by rfl) (by rfl) (by rfl) (by rfl) (by rfl))⟩
   | ok =>
     simp only []
     refine Sim.andThen _ (R1 := fun a3 s3 => a3 = a2 ∧ s3 = exitUpd cb .ok s2) ⟨_, by simp [say, accepts_cons, Term.res], rfl, rfl⟩ ?_
@@ -528,19 +549,20 @@ theorem classify_failed (s : St) (c : Nat) (p : Bool) (n : Nat) (h : s.fail = so
 
 theorem classify_graceful (s : St) (c : Nat) (r : Reason) (hps : s.postStopOk = true)
     (hr : (r.isUser = true ∧ s.stopReason = some r) ∨ (r = .drained ∧ s.drainReq = true)) :
-    classify s (.terminated c true r) = .ok () := by
+    classify s (.terminated c (!s.isLocal) r) = .ok () := by
   rcases hr with ⟨hu, hs⟩ | ⟨hd, hq⟩
-  · cases r <;> simp [Reason.isUser] at hu <;> simp [classify, hps, hs]
-  · subst hd; simp [classify, hps, hq]
+  · cases r <;> simp [Reason.isUser] at hu <;> cases hl : s.isLocal <;> simp [classify, hps, hs, hl]
+  · subst hd; cases hl : s.isLocal <;> simp [classify, hps, hq, hl]
 
 theorem classify_cancelled (s : St) (c : Nat) (h : s.aborted = true) :
     classify s (.terminated c false .cancelled) = .ok () := by
   simp [classify, h]
 
 theorem Base.congr {a a' : Actor} {s : St} (h3 : a'.stopVal = a.stopVal) (h4 : a'.msgQ = a.msgQ)
-    (h5 : a'.stopTx = a.stopTx) (h6 : a'.sigVal = a.sigVal) (h7 : a'.sup = a.sup) (hb : Base a s) : Base a' s :=
+    (h5 : a'.stopTx = a.stopTx) (h6 : a'.sigVal = a.sigVal) (h7 : a'.sup = a.sup)
+    (h8 : a'.isLocal = a.isLocal) (hb : Base a s) : Base a' s :=
   ⟨hb.preFailed, hb.terminal, by rw [h3]; exact hb.stopVal, by rw [h4]; exact hb.drain,
-   by rw [h5]; exact hb.stopTx, by rw [h6, h7]; exact hb.kill⟩
+   by rw [h5]; exact hb.stopTx, by rw [h6, h7]; exact hb.kill, by rw [h8]; exact hb.localEq⟩
 
 theorem exitUpd_sup (cb : Cb) (r : Res) (s : St) : (exitUpd cb r s).sup = s.sup := by
   cases cb <;> cases r <;> rfl
@@ -554,11 +576,12 @@ theorem exitUpd_preFailed (cb : Cb) (r : Res) (s : St) (h : cb ≠ .preStart) :
 
 theorem exitUpd_base {a : Actor} {s : St} (cb : Cb) (r : Res) (h : cb ≠ .preStart) (hb : Base a s) :
     Base a (exitUpd cb r s) := by
-  refine ⟨by rw [exitUpd_preFailed cb r s h]; exact hb.preFailed, by rw [exitUpd_terminal]; exact hb.terminal, ?_, ?_, ?_, ?_⟩
+  refine ⟨by rw [exitUpd_preFailed cb r s h]; exact hb.preFailed, by rw [exitUpd_terminal]; exact hb.terminal, ?_, ?_, ?_, ?_, ?_⟩
   · cases cb <;> cases r <;> exact hb.stopVal
   · cases cb <;> cases r <;> exact hb.drain
   · cases cb <;> cases r <;> exact hb.stopTx
   · cases cb <;> cases r <;> exact hb.kill
+  · cases cb <;> cases r <;> exact hb.localEq
 
 theorem exitUpd_fail (cb : Cb) (r : Res) (s : St) (h : cb ≠ .preStart) (hr : r ≠ .ok) (a : Actor) :
     classify (exitUpd cb r s) (failedEv a r) = .ok () := by
@@ -613,7 +636,7 @@ theorem afterExit_sim (a : Actor) (s2 : St) (cb : Cb) (r : Res) (hid : a.id = me
       · cases hs : a.sup with
         | none =>
           exact ⟨exitUpd .postStart .ok s2, by simp [Actor.setStatus, hs], rfl, rfl,
-            hb.congr (by rfl) (by rfl) (by rfl) (by rfl) (by rfl)⟩
+            hb.congr (by rfl) (by rfl) (by rfl) (by rfl) (by rfl) (by rfl)⟩
         | some p =>
           refine ⟨{ (exitUpd .postStart .ok s2) with startedEmitted := true, startable := false }, ?_, rfl, rfl, ?_⟩
           · simp only [Actor.setStatus, hs, evs_cons_ev, evs_nil]
@@ -621,7 +644,7 @@ theorem afterExit_sim (a : Actor) (s2 : St) (cb : Cb) (r : Res) (hid : a.id = me
               exact next_emit_started a.id (exitUpd .postStart .ok s2) p (by rw [exitUpd_sup, hsup, hs])
                 hb.preFailed hb.terminal hse rfl)]
             rfl
-          · exact ⟨hb.preFailed, hb.terminal, hb.stopVal, hb.drain, hb.stopTx, hb.kill⟩
+          · exact ⟨hb.preFailed, hb.terminal, hb.stopVal, hb.drain, hb.stopTx, hb.kill, by simpa [Actor.setStatus] using hb.localEq⟩
       · rintro a1 s1 ⟨rfl, hs1, hb1⟩
         have := listen_sim a.id (a.setStatus .running) s1 (by simp [Actor.setStatus])
           (by rw [hs1]; simpa [Actor.setStatus] using hsup) hb1 (by simpa [Actor.setStatus] using harmed)
@@ -662,9 +685,10 @@ theorem afterExit_sim (a : Actor) (s2 : St) (cb : Cb) (r : Res) (hid : a.id = me
     | ok =>
       simp only [afterExit, hph]
       have hb := exitUpd_base (a := a) .postStop .ok (by simp) hc.toBase
-      have := finish_sim a.id a (.terminated a.id true rs) (exitUpd .postStop .ok s2) rfl
+      have hloc : a.isLocal = (exitUpd .postStop .ok s2).isLocal := hb.localEq.symm
+      have := finish_sim a.id a (.terminated a.id (!a.isLocal) rs) (exitUpd .postStop .ok s2) rfl
         (by rw [exitUpd_sup]; exact hsup) harmed hb.preFailed hb.terminal (by simp [SupEv.who]) rfl
-        (fun _ => classify_graceful _ _ rs rfl (hc.postStop rs hph))
+        (fun _ => by rw [hloc]; exact classify_graceful (exitUpd .postStop .ok s2) _ rs rfl (hc.postStop rs hph))
       rwa [exitUpd_sup] at this
     | err n =>
       simp only [afterExit, hph]
@@ -693,10 +717,12 @@ theorem afterPre_sim (a : Actor) (s2 : St) (supOk : Bool) (r : Res) (hid : a.id 
     simp only [afterPre]
     have hlinked : ∀ a' : Actor, a'.id = a.id → a'.phase = .ready → a'.armed = a.armed → a'.notifyOnCancel = true →
         a'.stopVal = a.stopVal → a'.msgQ = a.msgQ → a'.stopTx = a.stopTx → a'.sigVal = a.sigVal →
-        Post me s2.sup a' (exitUpd .preStart .ok s2) := by
-      intro a' h1 h2 h3 h4 h5 h6 h7 h8
+        a'.isLocal = a.isLocal → Post me s2.sup a' (exitUpd .preStart .ok s2) := by
+      intro a' h1 h2 h3 h4 h5 h6 h7 h8 h9
       refine ⟨by rw [h1]; exact hid, rfl, Or.inr ?_⟩
       exact { preFailed := hc.preFailed, terminal := hc.terminal
+              localEq := by rw [h9]; exact hc.localEq
+              freshSig := by intro hfr; rw [h2] at hfr; cases hfr
               stopVal := by rw [h5]; exact hc.stopVal
               drain := by rw [h6]; exact hc.drain
               stopTx := by rw [h7]; exact hc.stopTx
@@ -709,11 +735,11 @@ theorem afterPre_sim (a : Actor) (s2 : St) (supOk : Bool) (r : Res) (hid : a.id 
     · split
       · have := failSpawn_sim me a .nolink (exitUpd .preStart .ok s2) hid (by simp)
         simpa [exitUpd_sup] using this
-      · refine ⟨exitUpd .preStart .ok s2, ?_, hlinked _ rfl rfl rfl rfl rfl rfl rfl rfl⟩
+      · refine ⟨exitUpd .preStart .ok s2, ?_, hlinked _ rfl rfl rfl rfl rfl rfl rfl rfl rfl⟩
         simp only [evs_cons_eff, evs_cons_ev, evs_nil]
         rw [accepts_cons_ok _ _ (next_spawnRet_ok me (exitUpd .preStart .ok s2) hc.preFailed)]
         rfl
-    · refine ⟨exitUpd .preStart .ok s2, ?_, hlinked _ rfl rfl rfl rfl rfl rfl rfl rfl⟩
+    · refine ⟨exitUpd .preStart .ok s2, ?_, hlinked _ rfl rfl rfl rfl rfl rfl rfl rfl rfl⟩
       simp only [evs_cons_ev, evs_nil]
       rw [accepts_cons_ok _ _ (next_spawnRet_ok me (exitUpd .preStart .ok s2) hc.preFailed)]
       rfl
@@ -743,10 +769,10 @@ theorem pollOpen_sim (a : Actor) (s : St) (cb : Cb) (hid : a.id = me) (hsup : s.
     · exact killedOutsideLoop_sim me _ s1 hid hsup harmed hc.preFailed hc.terminal hk
   · rename_i hsig
     split
-    · exact ⟨s, rfl, hid, rfl, Or.inr (hc.congr (by rfl) (by rfl) (by rfl) (by rfl) (by rfl) (by rfl) (by rfl) (by rfl))⟩
+    · exact ⟨s, rfl, hid, rfl, Or.inr (hc.congr (by rfl) (by rfl) (by rfl) (by rfl) (by rfl) (by rfl) (by rfl) (by rfl) (by rfl))⟩
     · rename_i sg hsg
       have hc' : Core ({ a with woken := false, sigW := true, seg := none } : Actor) s :=
-        hc.congr (by rfl) (by rfl) (by rfl) (by rfl) (by rfl) (by rfl) (by rfl) (by rfl)
+        hc.congr (by rfl) (by rfl) (by rfl) (by rfl) (by rfl) (by rfl) (by rfl) (by rfl) (by rfl)
       refine runSeg_sim me _ s cb sg afterExit hid hc' (by simpa using hsig) ?_
       intro a1 s2 r hf hs2 hc1 _
       have := afterExit_sim me a1 s2 cb r (by rw [hf.id]; exact hid) (by rw [hs2, hsup, hf.sup]) hc1
@@ -782,6 +808,8 @@ theorem opPoll_sim (a : Actor) (s : St) (h : Inv me a s) : Sim (next me) (Post m
         | false => rfl
         | true => have := hc.started h'; simp [hph, pastPostStart] at this
       exact { preFailed := hc.preFailed, terminal := hc.terminal
+              localEq := by simpa using hc.localEq
+              freshSig := by intro hfr; simp at hfr
               stopVal := by simpa using hc.stopVal, drain := by simpa using hc.drain
               stopTx := by simpa using hc.stopTx, kill := by simpa using hc.kill
               armed := by intro _; simpa using harmed
@@ -790,7 +818,7 @@ theorem opPoll_sim (a : Actor) (s : St) (h : Inv me a s) : Sim (next me) (Post m
               postStop := by intro r hr; simp at hr }
   · rename_i hph
     have hc := Inv.core me h (by simp [hph])
-    exact listen_sim me _ s hid hsup (hc.toBase.congr (by rfl) (by rfl) (by rfl) (by rfl) (by rfl))
+    exact listen_sim me _ s hid hsup (hc.toBase.congr (by rfl) (by rfl) (by rfl) (by rfl) (by rfl) (by rfl))
       (hc.armed (by simp [hph])) (hc.notify (by simp [hph, Phase.isTask]))
   · rename_i hph
     exact pollOpen_sim me a s _ hid hsup (Inv.core me h (by simp [hph])) (by simp [hph, Phase.openCb]) (by simp [hph, Phase.isTask])
@@ -804,7 +832,8 @@ theorem opPoll_sim (a : Actor) (s : St) (h : Inv me a s) : Sim (next me) (Post m
 
 
 theorem opSpawn_sim (a : Actor) (s : St) (sup : Option Nat) (name : Option String) (nameFree : Bool)
-    (h : Inv me a s) : Sim (next me) (Post me a.sup) s (opSpawn a sup name nameFree) := by
+    (isLocal supOk : Bool) (h : Inv me a s) :
+    Sim (next me) (Post me a.sup) s (opSpawn a sup name nameFree isLocal supOk) := by
   have hid := h.1
   have hsup := h.2.1
   rw [← hsup]
@@ -821,14 +850,38 @@ theorem opSpawn_sim (a : Actor) (s : St) (sup : Option Nat) (name : Option Strin
       cases h' : s.startedEmitted with
       | false => rfl
       | true => have := hc.started h'; simp [hph, pastPostStart] at this
-    refine ⟨{ s with startable := false }, by simp [accepts_cons], hid, rfl, Or.inr ?_⟩
-    exact { preFailed := hc.preFailed, terminal := hc.terminal
-            stopVal := by simpa using hc.stopVal, drain := by simpa using hc.drain
-            stopTx := by simpa using hc.stopTx, kill := by simpa using hc.kill
-            armed := by intro _; rfl
-            notify := by intro h'; simp [Phase.isTask] at h'
-            started := by intro h'; simp [hse] at h'
-            postStop := by intro r hr; simp at hr }
+    have hsig : a.sigVal = false := hc.freshSig hph
+    -- the new actor in phase `pre`, with whatever supervisor link `opSpawn` made
+    have hnew : ∀ (a' : Actor) (s' : St), a'.phase = .pre → a'.armed = true → a'.stopVal = a.stopVal →
+        a'.msgQ = a.msgQ → a'.stopTx = a.stopTx → a'.sigVal = a.sigVal → s'.isLocal = a'.isLocal →
+        s'.preFailed = s.preFailed → s'.terminalEmitted = s.terminalEmitted → s'.stopReason = s.stopReason →
+        s'.drainReq = s.drainReq → s'.startedEmitted = s.startedEmitted → Core a' s' := by
+      intro a' s' h0 h1 h3 h4 h5 h6 hl p1 p2 p3 p4 p5
+      exact { preFailed := by rw [p1]; exact hc.preFailed, terminal := by rw [p2]; exact hc.terminal
+              localEq := hl
+              freshSig := by intro hfr; rw [h0] at hfr; cases hfr
+              stopVal := by rw [h3, p3]; exact hc.stopVal
+              drain := by rw [h4, p4]; exact hc.drain
+              stopTx := by rw [h5, p3]; exact hc.stopTx
+              kill := by rw [h6, hsig]; intro hk; cases hk
+              armed := by intro _; exact h1
+              notify := by intro h'; rw [h0] at h'; simp [Phase.isTask] at h'
+              started := by intro h'; rw [p5, hse] at h'; cases h'
+              postStop := by intro r hr; rw [h0] at hr; cases hr }
+    split
+    · split
+      · split
+        · -- thread-local, link refused: nothing happened
+          refine ⟨s, ?_, by rw [hsup]; exact h⟩
+          simp only [evs_cons_ev, evs_nil]
+          rw [accepts_cons_ok _ _ (next_spawnRet_err me s .nolink (by simp))]
+          rfl
+        · refine ⟨{ s with isLocal := true, startable := false }, by simp [accepts_cons], hid, rfl, Or.inr ?_⟩
+          exact hnew _ _ rfl rfl rfl rfl rfl rfl rfl rfl rfl rfl rfl rfl
+      · refine ⟨{ s with isLocal := true, startable := false }, by simp [accepts_cons], hid, rfl, Or.inr ?_⟩
+        exact hnew _ _ rfl rfl rfl rfl rfl rfl rfl rfl rfl rfl rfl rfl
+    · refine ⟨{ s with startable := false }, by simp [accepts_cons], hid, rfl, Or.inr ?_⟩
+      exact hnew _ _ rfl rfl rfl rfl rfl rfl (by simpa using hc.localEq) rfl rfl rfl rfl rfl
   · exact ⟨s, rfl, by rw [hsup]; exact h⟩
 
 theorem opPollSpawn_sim (a : Actor) (s : St) (supOk : Bool) (h : Inv me a s) :
@@ -853,7 +906,7 @@ theorem opPollSpawn_sim (a : Actor) (s : St) (supOk : Bool) (h : Inv me a s) :
       · exact ⟨s, rfl, by rw [hsup]; exact h⟩
       · rename_i sg hsg
         have hc' : Core ({ a with seg := none } : Actor) s :=
-          hc.congr (by rfl) (by rfl) (by rfl) (by rfl) (by rfl) (by rfl) (by rfl) (by rfl)
+          hc.congr (by rfl) (by rfl) (by rfl) (by rfl) (by rfl) (by rfl) (by rfl) (by rfl) (by rfl)
         refine runSeg_sim me _ s .preStart sg _ hid hc' (by simpa using hsig) ?_
         intro a1 s2 r hf hs2 hc1 hks
         have := afterPre_sim me a1 s2 supOk r (by rw [hf.id]; exact hid) hc1 (by rw [hf.phase]; exact hph) hks
@@ -907,12 +960,12 @@ theorem opAbort_sim (a : Actor) (s : St) (h : Inv me a s) :
 theorem Post.congr {id0 : Nat} {sup0 : Option Nat} {a a' : Actor} {s : St} (hi : a'.id = a.id)
     (h0 : a'.phase = a.phase) (h1 : a'.armed = a.armed)
     (h2 : a'.notifyOnCancel = a.notifyOnCancel) (h3 : a'.stopVal = a.stopVal) (h4 : a'.msgQ = a.msgQ)
-    (h5 : a'.stopTx = a.stopTx) (h6 : a'.sigVal = a.sigVal) (h7 : a'.sup = a.sup)
+    (h5 : a'.stopTx = a.stopTx) (h6 : a'.sigVal = a.sigVal) (h7 : a'.sup = a.sup) (h8 : a'.isLocal = a.isLocal)
     (h : Post id0 sup0 a s) : Post id0 sup0 a' s := by
   refine ⟨by rw [hi]; exact h.1, h.2.1, ?_⟩
   rcases h.2.2 with hd | hc
   · left; rw [h0, hd]
-  · right; exact hc.congr h0 h1 h2 h3 h4 h5 h6 h7
+  · right; exact hc.congr h0 h1 h2 h3 h4 h5 h6 h7 h8
 
 theorem opResume_sim (a : Actor) (s : St) (sg : Seg) (h : Inv me a s) :
     Sim (next me) (Post me a.sup) s (opResume a sg) := by
@@ -921,7 +974,7 @@ theorem opResume_sim (a : Actor) (s : St) (sg : Seg) (h : Inv me a s) :
   · exact ⟨s, rfl, h⟩
   · split
     · exact ⟨s, rfl, h⟩
-    · exact ⟨s, rfl, Post.congr (by rfl) (by rfl) (by rfl) (by rfl) (by rfl) (by rfl) (by rfl) (by rfl) (by rfl) h⟩
+    · exact ⟨s, rfl, Post.congr (by rfl) (by rfl) (by rfl) (by rfl) (by rfl) (by rfl) (by rfl) (by rfl) (by rfl) (by rfl) h⟩
 
 /-- `Post` across an API call that preserves the frame. -/
 theorem Post.api {a a' : Actor} {s s' : St} (hf : Frame a a') (hs : s'.sup = s.sup)
@@ -948,7 +1001,7 @@ theorem envOp_sim (a : Actor) (s : St) (op : AOp) (h : Inv me a s) :
   | supArrive e =>
     simp only [Actor.envOp, opSupArrive]
     split
-    · exact ⟨s, by simp [accepts_cons], Post.congr (by rfl) (by rfl) (by rfl) (by rfl) (by rfl) (by rfl) (by rfl) (by rfl) (by rfl) h⟩
+    · exact ⟨s, by simp [accepts_cons], Post.congr (by rfl) (by rfl) (by rfl) (by rfl) (by rfl) (by rfl) (by rfl) (by rfl) (by rfl) (by rfl) h⟩
     · exact ⟨s, by simp [accepts_cons], h⟩
   | treeTaken =>
     simp only [Actor.envOp, opTreeTaken]
@@ -966,6 +1019,12 @@ theorem envOp_sim (a : Actor) (s : St) (op : AOp) (h : Inv me a s) :
       · right
         split
         · exact { preFailed := hc.preFailed, terminal := hc.terminal
+                  localEq := by simpa [hf.isLocal] using hc.localEq
+                  freshSig := by
+                    intro hfr
+                    have hfr' : a.phase = .fresh := by simpa [hf.phase] using hfr
+                    rw [apiKill_fresh _ (by simpa using hfr')]
+                    exact hc.freshSig hfr'
                   stopVal := by simpa [h2] using hc.stopVal
                   drain := by simpa [h1] using hc.drain
                   stopTx := by simpa [h3] using hc.stopTx
@@ -975,12 +1034,13 @@ theorem envOp_sim (a : Actor) (s : St) (op : AOp) (h : Inv me a s) :
                   started := by simpa [hf.phase] using hc.started
                   postStop := by simpa [hf.phase] using hc.postStop }
         · exact { preFailed := hc.preFailed, terminal := hc.terminal
+                  localEq := by simpa using hc.localEq, freshSig := by simpa using hc.freshSig
                   stopVal := by simpa using hc.stopVal, drain := by simpa using hc.drain
                   stopTx := by simpa using hc.stopTx, kill := by intro _; right; rfl
                   armed := by simpa using hc.armed, notify := by simpa using hc.notify
                   started := by simpa using hc.started, postStop := by simpa using hc.postStop }
-  | kidAdd c => exact ⟨s, rfl, Post.congr (by rfl) (by rfl) (by rfl) (by rfl) (by rfl) (by rfl) (by rfl) (by rfl) (by rfl) h⟩
-  | kidDel c => exact ⟨s, rfl, Post.congr (by rfl) (by rfl) (by rfl) (by rfl) (by rfl) (by rfl) (by rfl) (by rfl) (by rfl) h⟩
+  | kidAdd c => exact ⟨s, rfl, Post.congr (by rfl) (by rfl) (by rfl) (by rfl) (by rfl) (by rfl) (by rfl) (by rfl) (by rfl) (by rfl) h⟩
+  | kidDel c => exact ⟨s, rfl, Post.congr (by rfl) (by rfl) (by rfl) (by rfl) (by rfl) (by rfl) (by rfl) (by rfl) (by rfl) (by rfl) h⟩
   | call k =>
     refine ⟨s, by simp [Actor.envOp, accepts_cons], ?_⟩
     simp only [Actor.envOp, apiCall]
@@ -990,15 +1050,16 @@ theorem envOp_sim (a : Actor) (s : St) (op : AOp) (h : Inv me a s) :
          rcases h.2.2 with hd | hc
          · exact Or.inl hd
          · right
-           exact { preFailed := hc.preFailed, terminal := hc.terminal, stopVal := hc.stopVal,
+           exact { preFailed := hc.preFailed, terminal := hc.terminal, localEq := hc.localEq,
+                   freshSig := hc.freshSig, stopVal := hc.stopVal,
                    drain := by intro hd; apply hc.drain; simpa using hd,
                    stopTx := hc.stopTx, kill := hc.kill, armed := hc.armed, notify := hc.notify,
                    started := hc.started, postStop := hc.postStop })
   | pollCall k =>
     simp only [Actor.envOp]
     split
-    · exact ⟨s, by simp [accepts_cons], Post.congr (by rfl) (by rfl) (by rfl) (by rfl) (by rfl) (by rfl) (by rfl) (by rfl) (by rfl) h⟩
-    · exact ⟨s, by simp [accepts_cons], Post.congr (by rfl) (by rfl) (by rfl) (by rfl) (by rfl) (by rfl) (by rfl) (by rfl) (by rfl) h⟩
+    · exact ⟨s, by simp [accepts_cons], Post.congr (by rfl) (by rfl) (by rfl) (by rfl) (by rfl) (by rfl) (by rfl) (by rfl) (by rfl) (by rfl) h⟩
+    · exact ⟨s, by simp [accepts_cons], Post.congr (by rfl) (by rfl) (by rfl) (by rfl) (by rfl) (by rfl) (by rfl) (by rfl) (by rfl) (by rfl) h⟩
     · exact ⟨s, by simp [accepts_cons], h⟩
     · exact ⟨s, rfl, h⟩
   | pollWait w => exact ⟨s, by simp [Actor.envOp, accepts_cons], h⟩
@@ -1007,7 +1068,7 @@ theorem envOp_sim (a : Actor) (s : St) (op : AOp) (h : Inv me a s) :
 theorem stepCore_sim (a : Actor) (s : St) (op : AOp) (h : Inv me a s) :
     Sim (next me) (Post me a.sup) s (a.stepCore op) := by
   cases op with
-  | spawn sup name nameFree => exact opSpawn_sim me a s sup name nameFree h
+  | spawn sup name nameFree isLocal supOk => exact opSpawn_sim me a s sup name nameFree isLocal supOk h
   | pollSpawn supOk => exact opPollSpawn_sim me a s supOk h
   | dropSpawn => exact opDropSpawn_sim me a s h
   | poll => exact opPoll_sim me a s h
@@ -1020,7 +1081,8 @@ theorem stepCore_sim (a : Actor) (s : St) (op : AOp) (h : Inv me a s) :
     · exact envOp_sim me a s _ h
 
 theorem Core.setSup {a : Actor} {s : St} (p : Option Nat) (hc : Core a s) : Core a { s with sup := p } :=
-  { preFailed := hc.preFailed, terminal := hc.terminal, stopVal := hc.stopVal, drain := hc.drain,
+  { preFailed := hc.preFailed, terminal := hc.terminal, localEq := hc.localEq,
+    freshSig := hc.freshSig, stopVal := hc.stopVal, drain := hc.drain,
     stopTx := hc.stopTx, kill := hc.kill, armed := hc.armed, notify := hc.notify, started := hc.started,
     postStop := hc.postStop }
 
@@ -1055,7 +1117,8 @@ theorem run_sim (ops : List AOp) (a : Actor) (s : St) (h : Inv me a s) :
 
 theorem inv_init (id : Nat) : Inv id (Actor.init id) {} := by
   refine ⟨rfl, rfl, Or.inr ?_⟩
-  exact { preFailed := rfl, terminal := rfl, stopVal := by simp [Actor.init], drain := by simp [Actor.init],
+  exact { preFailed := rfl, terminal := rfl, localEq := rfl, freshSig := by simp [Actor.init],
+          stopVal := by simp [Actor.init], drain := by simp [Actor.init],
           stopTx := by simp, kill := by simp [Actor.init], armed := by simp [Actor.init],
           notify := by simp [Actor.init, Phase.isTask], started := by simp, postStop := by simp [Actor.init] }
 
